@@ -527,6 +527,15 @@ def check_state_vectors(ctx, rep, r1, r3):
     outer = [h for h in loops if h not in inner and any(i in loops[h] for i in inner)]
     rep.count_exact(r3, 'per-event loops in State::validate', len(outer), 1)
     sph = an.paths(sv, history=True)
+    # the walk is unconditional: no Ok is produced on a path that did not enter the per-event loop (a memoised / skipped walk
+    # accepts a state that was never checked against this num_states)
+    n_ok = 0
+    for h in outer:
+        for (b, k, v) in ret_defs(sa):
+            if contains(v, lambda y: isinstance(y, tuple) and y and y[0] == 'agg' and y[2] == 'Ok'):
+                n_ok += 1
+                rep.ob(r3, sv, 'transitions-walked-before-every-Ok', sa.cfg.dominates(h, b), 'the loop over the transition vectors dominates the Ok result')
+    rep.count_floor(r3, 'Ok results of State::validate behind the transition walk', n_ok, 1)
     for h in outer:
         body = loops[h]
         for (x, lab) in sa.cfg.pred[h]:
@@ -1039,6 +1048,34 @@ def check_C11(ctx, rep):
                 attrs += fl.get('attrs', [])
         bad = [x for x in attrs if 'serde' in x]
         rep.ob('C11.R4', p.split('::')[-1], 'no-serde-attributes', not bad, 'serde attributes: %s' % bad[:3])
+        # derive helper attributes are not part of the lowered program, so the effect of skip / rename / with is read off the derived
+        # bodies: every declared field is written once under its own name, and read back once
+        fields = [(v['name'], fl['name']) for v in a['variants'] for fl in v['fields']]
+        named = sorted(fl for (vn, fl) in fields if not fl.isdigit())
+        if len(ser) == 1 and ser[0]['derived']:
+            sf = prog.fns.get(ser[0]['items'][0]['key'])
+            keys, total, vals_ok = [], 0, True
+            for (b, f, ar, t) in (calls(an.get(sf)) if sf is not None else []):
+                cs = callee_str(f)
+                last = cs.split('::')[-1]
+                if last == 'serialize_field':
+                    total += 1
+                    if len(ar) == 3:
+                        k = ar[1][2].strip('"') if ar[1][0] == 'ktext' else None
+                        keys.append(k)
+                        vals_ok = vals_ok and k is not None and contains(ar[2], lambda y: isinstance(y, tuple) and y and y[0] == 'fld' and y[3] == k)
+                elif last in ('serialize_newtype_variant', 'serialize_newtype_struct'):
+                    total += 1
+            okf = sf is not None and total == len(fields) and sorted(k or '?' for k in keys) == named and vals_ok
+            rep.ob('C11.R4', p.split('::')[-1], 'serialize-writes-every-field-under-its-name', okf,
+                   'declared fields %d, written %d, keys %s' % (len(fields), total, sorted(set(named) ^ set(k or '?' for k in keys))))
+        if len(de) == 1 and de[0]['derived']:
+            pre = de[0]['items'][0]['key']
+            nread = 0
+            for k2, g in prog.fns.items():
+                if k2.startswith(pre + '::') and k2.endswith('::visit_seq'):
+                    nread += sum(1 for (b, f, ar, t) in calls(an.get(g)) if callee_str(f).endswith('SeqAccess::next_element'))
+            rep.ob('C11.R4', p.split('::')[-1], 'deserialize-reads-every-field', nread == len(fields), 'declared fields %d, read in visit_seq %d' % (len(fields), nread))
     nm = prog.fn(FW, 'Machine', 'name')
     na = an.get(nm)
     okn = any(callee_str(f).endswith('digest') and contains(a[0], lambda x: is_call(x, 'Machine::serialize')) for (b, f, a, t) in calls(na))
@@ -1056,7 +1093,17 @@ def check_C11(ctx, rep):
                 d = dict(rg[3])
                 hi = max([const_eval(x) or 0 for x in d.values()] + [0])
             st = pf.at_entry(b)
-            ok, w = all_paths(st, lambda S: len_guard(S, lambda l: contains(l, lambda x: x == ('param', 1))) >= hi and
+            # the length that was checked is the length of the string that is sliced: the parameter itself, or (when the slice is
+            # taken from a derived string such as s.trim()) that derived value
+            recv = a[0]
+            while isinstance(recv, tuple) and recv and recv[0] in ('ref', 'load', 'deref', 'pick', 'refv'):
+                recv = recv[1]
+            recv = strip_sites(recv)
+            if recv == ('param', 1):
+                same = lambda l: contains(l, lambda x: x == ('param', 1)) and not contains(l, lambda x: isinstance(x, tuple) and x and x[0] == 'call' and not (x[1].endswith('::len') or x[1].endswith('as_bytes')))
+            else:
+                same = lambda l, recv=recv: contains(strip_sites(l), lambda x: x == recv)
+            ok, w = all_paths(st, lambda S: len_guard(S, same) >= hi and
                               any(f2[0] == 'bcall' and f2[1].endswith('is_ascii') and f2[3] is True for f2 in S))
             rep.ob('C11.R5', fs, 'str-slice:%s' % show(rg)[:40], ok and bool(st), 'slice %s behind len >= %d and is_ascii' % (show(rg), hi))
         if cs.endswith('Result::<T, E>::unwrap'):
